@@ -9,7 +9,7 @@ from oracle import tables as tb
 from .common import Spec, Claims
 
 PROPERTY = "C18"
-BOUNDS = ("request strings of 1..3 (quick) / 1..4 (thorough; four items only with a range among them) comma items, each a symbolic number 1..65535 or a range a-b with "
+BOUNDS = ("request strings of 1..3 comma items (quick: 9 shapes; thorough: + range,number,range), each a symbolic number 1..65535 or a range a-b with "
           "symbolic a and width 0..2, any interleaving; source or destination side; templates {tcp, udp} x {no operator, eq, range} "
           "(+ flags/log/host fields that must survive); ports-per-line 0 (unlimited), 1, 2, 3; both range policies; both platforms; "
           "numbers (port_nr=True) and, for single ports, names.  Protocol ranges: 10 concrete request strings (netports' parser enumerates per value), template host and packet symbolic.")
@@ -17,9 +17,9 @@ ASSUMPTIONS = ["a ValueError (eq template with an a-b item under the range polic
                "templates) is a refusal and not judged", "neq templates are outside the property (one `neq p` per port is pinned by tests)"]
 
 SHAPES = ["n", "r", "n,n", "n,r", "r,n", "r,r", "n,n,n", "n,r,n", "r,n,n"]
-# four free single ports ("n,n,n,n": 24 orders x adjacency patterns, > 900 s per structural shard) were tried and dropped from the
-# thorough tier: four items are covered with one range among them
-SHAPES_T = SHAPES + ["n,n,r,n", "r,n,r"]
+# four-item requests ("n,n,n,n", "n,n,r,n": 24 orders x adjacency patterns) were tried in the thorough tier and dropped: single
+# structural shards exceeded the 900 s budget even when platform and policy were pinned; the thorough tier adds "r,n,r"
+SHAPES_T = SHAPES + ["r,n,r"]
 TEMPLATES = {
     "plain-tcp": ("permit tcp any any", "tcp", None),
     "fields-udp": ("deny udp host 10.1.1.1 10.2.0.0 0.0.0.255 log", "udp", None),
